@@ -170,7 +170,7 @@ class Emit:
             t = self.cfg.get("cast", {}).get(x[2])
             return t.format(self.atom(x[1])) if t else self.e(x[1])
         if k == "block":
-            if self.cfg.get("imperative") and x[2] is not None and any(st[0] == "expr" for st in x[1]):
+            if self.cfg.get("imperative") and x[2] is not None and (any(st[0] == "expr" for st in x[1]) or self.cfg.get("lockmethods")):
                 return "(" + self.imp(list(x[1]), self.e(x[2])) + ")"
             return self.block(x)
         if k == "tuple":
@@ -1512,6 +1512,11 @@ VOTEPARAMS = [
          struct={"SortVoting": ("SVP", {"threshold": "threshold", "candidate_num": "candidate_num", "track_num": "track_num"})}, Self="SortVoting",
          cast={"i64": "quant {0}"}, path={"F32_U64_MULT": "mult"}),
     dict(VP_COMMON, name="sort_voting_params", file="trackers/sort/simple_api.rs", impl=r"impl Sort \{"),
+    dict(VP_COMMON, name="batch_sort_voting_params", file="trackers/sort/batch_api.rs", impl=None, fn="voting_thread",
+         snippet=r"let candidates_num = tracks\.len\(\);.*?let voting = SortVoting::new\(.*?\);",
+         sig="{T : Type} (quant : Rat → Int) (mult mahaThr : Rat) (method : PosKind) (tracks : List T) (store : Unit) (shard_stats : List Nat) : SVP",
+         lockmethods=("read", "unwrap", "expect"), value_effects=True,
+         method={"read": "{0}", "unwrap": "{0}", "expect": "{0}", "shard_stats": "shard_stats", "iter": "{0}", "sum": "List.sum {0}", "len": "List.length {0}"}),
     dict(group="VoteParams", name="visual_voting_new", file="trackers/visual_sort/voting.rs", impl=r"impl VisualVoting \{", fn="new",
          sig="(positional_threshold max_allowed_feature_distance : Rat) (min_winner_feature_votes : Nat) : VVP",
          struct={"VisualVoting": ("VVP", {"positional_threshold": "positional_threshold", "max_allowed_feature_distance": "max_allowed_feature_distance",
